@@ -832,7 +832,7 @@ func run(c *vf.Ctx) {
 		if err != nil {
 			c.Fatal("strace log: %v", err)
 		}
-		if len(prog) == 0 {
+		if len(prog) == 0 && os.Getenv("VERIF_C18_STRICT_TRACE") != "" {
 			c.Fatal("no system calls on the state directory observed between the markers:\n%s", strings.Join(lines, "\n"))
 		}
 		newBytes, _ := os.ReadFile(target)
@@ -849,6 +849,32 @@ func run(c *vf.Ctx) {
 		snapNew, err := loadSnapshot(target)
 		if err != nil {
 			c.Violation(vf.Key("reload-after-clean-save", pi), fmt.Sprintf("the state written by an undisturbed Stop() cannot be loaded: %v", err), map[string]any{"pair": p}, nil)
+			continue
+		}
+		// SaveCompletes, independently of what the file says about itself: the content the helper was given, put
+		// into a storage in this process (time stamps of mappings are taken when they are stored: masked)
+		{
+			var want content
+			data, _ := os.ReadFile(newCF)
+			_ = json.Unmarshal(data, &want)
+			ref, rerr := storage.NewJSONFileStorage(filepath.Join(base, "ref-does-not-exist.json"))
+			if rerr != nil {
+				c.Fatal("reference storage: %v", rerr)
+			}
+			if err := apply(ref, want); err != nil {
+				c.Fatal("reference storage: %v", err)
+			}
+			wantSnap, _ := snapshot(ref)
+			if maskCreated(wantSnap) != maskCreated(snapNew) {
+				c.Violation(vf.Key("clean-save-lost", map[bool]string{true: "no-calls", false: "differs"}[len(prog) == 0]),
+					fmt.Sprintf("an undisturbed shutdown did not store its state (old state %d routers / %d mappings, new state %d / %d; %d system calls on the state directory): the next start finds %s",
+						max(p.oldR, 0), p.oldM, p.newR, p.newM, len(prog), firstDiff(maskCreated(wantSnap), maskCreated(snapNew))),
+					map[string]any{"pair": p, "calls": len(prog)}, nil)
+				continue
+			}
+		}
+		if len(prog) == 0 {
+			c.Logf("pair %d: the shutdown made no system call on the state directory and the stored state is right", pi)
 			continue
 		}
 		snapOld := ""
@@ -1105,6 +1131,46 @@ func run(c *vf.Ctx) {
 				c.Violation(vf.Key("roundtrip", kind, classify(detail)), fmt.Sprintf("state of %d routers / %d mappings does not survive save+reload: %s: %s", sz[0], sz[1], kind, detail),
 					map[string]any{"content": ct, "kind": kind, "detail": detail}, nil)
 			}
+		}
+	}
+	// a state that shrinks - to fewer entries, and to nothing - over an existing file
+	for round := 0; round < rounds; round++ {
+		file := filepath.Join(rtDir, fmt.Sprintf("shrink-%d.json", round))
+		s1, err := storage.NewJSONFileStorage(file)
+		if err != nil {
+			c.Fatal("new storage: %v", err)
+		}
+		ct := genContent(rng, 2+rng.Intn(6), 1+rng.Intn(4))
+		_ = apply(s1, ct)
+		if err := s1.Stop(); err != nil {
+			c.Fatal("stop: %v", err)
+		}
+		keep := round % 2 // 0: delete everything, 1: keep one router
+		s2, err := storage.NewJSONFileStorage(file)
+		if err != nil {
+			c.Fatal("reload: %v", err)
+		}
+		q := storage.NewRouterQuery(nil, nil, 100000)
+		_ = s2.QueryRouters(q)
+		for i, r := range q.Result() {
+			if i >= keep {
+				_ = s2.DeleteRouter(r.Address.IP)
+			}
+		}
+		ms, _ := s2.QueryMappings("")
+		for _, mp := range ms {
+			_ = s2.DeleteMapping(mp.Domain)
+		}
+		before, _ := snapshot(s2)
+		serr := s2.Stop()
+		after, lerr := loadSnapshot(file)
+		c.Eval(1)
+		c.Distinct(fmt.Sprintf("shrink/%d", round))
+		_ = os.Remove(file)
+		if serr != nil || lerr != nil || before != after {
+			c.Violation(vf.Key("roundtrip", "shrunk-state", map[int]string{0: "to-empty", 1: "to-one"}[keep]),
+				fmt.Sprintf("a state reduced to %d routers and 0 mappings over an existing file does not survive save+reload (save: %v, reload: %v): %s", keep, serr, lerr, firstDiff(before, after)),
+				map[string]any{"kept": keep}, nil)
 		}
 	}
 	c.Stage("R", map[string]any{"pairs": len(pairs), "roundtrips": rounds * len(sizes)})
